@@ -7,74 +7,144 @@ import (
 	"verifsim/internal/isa"
 )
 
+// taint is what a known defect can explain: the registers, memory lines (64
+// bytes) or everything that may be wrong at the end of the run, obtained by
+// propagating the defect's origins forward through the REFERENCE trace
+// (data flow only; a tainted branch operand taints everything).
+type taint struct {
+	active bool
+	all    bool
+	memAny bool
+	regs   [isa.NumRegs]bool
+	lines  map[int32]bool
+}
+
+// explains tells whether every mismatch of v lies inside the taint.
+func (t *taint) explains(v *core.Verdict) bool {
+	if t == nil || !t.active {
+		return false
+	}
+	if t.all {
+		return true
+	}
+	if v == nil {
+		return false
+	}
+	for _, r := range v.BadRegs {
+		if !t.regs[r] {
+			return false
+		}
+	}
+	if v.BadMany && !t.memAny {
+		return false
+	}
+	if !t.memAny {
+		for _, l := range v.BadLines {
+			if !t.lines[l] {
+				return false
+			}
+		}
+	}
+	return true
+}
+
+// origin: after instruction pos of the trace, register reg / memory line line /
+// any memory / everything may be wrong.
+type origin struct {
+	pos     int
+	reg     isa.Reg
+	hasReg  bool
+	line    int32
+	hasLine bool
+	memAny  bool
+	all     bool
+}
+
+func propagate(p *isa.Program, ref *isa.Result, origins []origin) *taint {
+	t := &taint{lines: map[int32]bool{}}
+	if len(origins) == 0 {
+		return t
+	}
+	t.active = true
+	at := map[int][]origin{}
+	for _, o := range origins {
+		at[o.pos] = append(at[o.pos], o)
+	}
+	for i, st := range ref.Trace {
+		in := p.Insts[st.Idx]
+		dirty := false
+		for _, r := range in.Reads() {
+			if r != isa.Zero && t.regs[r] {
+				dirty = true
+			}
+		}
+		switch {
+		case in.Op.IsLoad():
+			if t.memAny || t.lines[st.Addr>>6] {
+				dirty = true
+			}
+		case in.Op.IsStore():
+			if in.Rs1 != isa.Zero && t.regs[in.Rs1] {
+				t.memAny = true
+			} else if dirty {
+				t.lines[st.Addr>>6] = true
+			}
+		case in.Op.IsCondBranch(), in.Op == isa.JALR:
+			if dirty {
+				t.all = true
+			}
+		}
+		if rd, w := in.Writes(); w && rd != isa.Zero && dirty {
+			t.regs[rd] = true
+		}
+		for _, o := range at[i] {
+			switch {
+			case o.all:
+				t.all = true
+			case o.memAny:
+				t.memAny = true
+			case o.hasLine:
+				t.lines[o.line] = true
+			}
+			if o.hasReg && o.reg != isa.Zero {
+				t.regs[o.reg] = true
+			}
+		}
+		if t.all {
+			return t
+		}
+	}
+	return t
+}
+
 // features are facts about a case computed from the program text and its
 // REFERENCE execution only (never from the machine under test).
 type features struct {
 	ref *isa.Result
-	ops [isa.NumOps]int
 	// executed loads / stores / conditional branches / taken branches / jumps
 	loads, stores, condBranches, takenBranches, jumps int
 	// redirects = taken conditional branches + executed jumps (what can flush)
 	redirects int
-	// storeThenLoadSameLine: a store is followed (any distance) by a load of the same 64-byte line
-	storeThenLoadSameLine bool
-	// storeThenAccessSameLine: a store is followed by any access to the same 128-byte region
-	storeThenAccessSameRegion bool
-	// storesSameLine: two stores touch the same 64-byte line
-	storesSameLine bool
-	// conflictSameLine: a store and another access (load or store, either order) touch the same 64-byte line
+	// conflictSameLine: a store and another access (either order) touch the same 64-byte line
 	conflictSameLine bool
-	// loadDestOverwritten: the destination register of a load, or of an
-	// instruction that waits for a load result (transitively, within 6
-	// instructions), is written again by another instruction within 16
-	// executed instructions
-	loadDestOverwritten bool
-	// warAfterLoadUse: a consumer of a load result (within 6 instructions of the
-	// load) has another source register that a younger instruction rewrites
-	// within 8 executed instructions
-	warAfterLoadUse bool
+	// shadow*: the 8 instructions that statically follow a taken conditional
+	// branch or an executed jump contain: a register write or store / a store /
+	// a load or store / div, rem, a jump, a conditional branch or an undefined
+	// label / div, rem or an undefined label
+	shadowHasWork, shadowHasStore, shadowHasMem, shadowHasTrap, shadowHasErrTrap bool
 	// memBaseWrittenRecently: a load/store whose base register was written
 	// within the 10 executed instructions before it
 	memBaseWrittenRecently bool
-	// wawBeforeBranch: a register is written twice within 6 executed
-	// instructions and a conditional branch follows within 8
-	wawBeforeBranch bool
-	// ringOverflow: one register is written more than 10 times (the rename
-	// ring length) without a conditional branch (commit point) in between
-	ringOverflow bool
-	// loadBeforeRedirect: a load is followed within 16 executed instructions by a redirect
-	loadBeforeRedirect bool
-	// memBeforeRedirect: any load/store followed within 24 executed instructions by a redirect
-	memBeforeRedirect bool
-	// memAfterRedirect: a load/store executes within 24 instructions after a redirect
-	memAfterRedirect bool
-	// regRewrittenAroundBranch: a register written within 10 executed
-	// instructions before a conditional branch is written again within 10
-	// instructions after it on the executed path, or statically in the 8
-	// instructions following a taken branch (its shadow)
-	regRewrittenAroundBranch bool
-	// shadowWrites: the 8 instructions that statically follow a taken
-	// conditional branch or an executed jump contain a register write or a store
-	shadowHasWork bool
-	// shadowHasStore: ... contain a store
-	shadowHasStore bool
-	// shadowHasTrap: ... contain div/rem, a jump (j/jal/jalr), a conditional branch or an undefined label
-	shadowHasTrap bool
-	// shadowHasErrTrap: ... contain div/rem or a reference to an undefined label
-	shadowHasErrTrap bool
-	// shadowHasMem: ... contain a load or a store
-	shadowHasMem bool
-	// shadowHasJump: ... contain a jump or branch
-	shadowHasControl bool
-	// endsWithMemInFlight: a load or store among the last 6 executed instructions
-	memNearEnd bool
-	// writes near the end (last 4 executed instructions write a register)
-	distinctLines int
-	// exitKind: 0 ret, 1 fall-through, 2 jump to end
-	exitKind int
-	// twoMemSameCycleWindow: two memory accesses within 4 executed instructions of each other
-	memClose bool
-	executed int
+	// slowWaw / warLoad / ringOverflow: see the taints below
+	slowWaw, warLoad, ringOverflow bool
+	executed                       int
+
+	// what each known defect family can explain
+	tConflict *taint // a store and another access to one line (KF-W2, W9, W10)
+	tShadow   *taint // effects of the static shadow of taken branches (KF-W3)
+	tSlowWaw  *taint // an older slow (or back-pressured) writer lands after a younger one (KF-W4)
+	tWar      *taint // a waiting instruction sees a younger writer of its source (KF-W8)
+	tRing     *taint // more than 10 uncommitted writes to one register (KF-W11)
 }
 
 func featuresOf(c *core.Case) *features {
@@ -83,29 +153,24 @@ func featuresOf(c *core.Case) *features {
 		return nil
 	}
 	p := c.Prog
-	f := &features{ref: ref, exitKind: ref.ExitKind, executed: len(ref.Trace)}
+	f := &features{ref: ref, executed: len(ref.Trace)}
+	tr := ref.Trace
+	n := len(tr)
+	inst := func(i int) isa.Inst { return p.Insts[tr[i].Idx] }
+
+	var oConflict, oShadow, oSlow, oWar, oRing []origin
+
 	type acc struct {
 		pos   int
 		line  int32
 		store bool
+		rd    isa.Reg
 	}
 	var accs []acc
-	lines := map[int32]bool{}
-	lastRedirect := -1000
-	lastMem := -1000
-	// recent register writes: reg -> position
 	lastWrite := map[isa.Reg]int{}
-	lastLoadDest := map[isa.Reg]int{}
-	// pending "written before branch" sets per branch
-	type br struct {
-		pos    int
-		before map[isa.Reg]bool
-	}
-	var recentBranches []br
-	writesSinceCommit := map[isa.Reg]int{}
-	for i, st := range ref.Trace {
-		in := p.Insts[st.Idx]
-		f.ops[in.Op]++
+	for i := 0; i < n; i++ {
+		in := inst(i)
+		st := tr[i]
 		isRedirect := false
 		switch {
 		case in.Op.IsLoad():
@@ -127,59 +192,44 @@ func featuresOf(c *core.Case) *features {
 				f.memBaseWrittenRecently = true
 			}
 			line := st.Addr >> 6
-			lines[line] = true
 			for _, a := range accs {
 				if a.line == line && (a.store || in.Op.IsStore()) {
 					f.conflictSameLine = true
-				}
-				if a.store && a.line>>1 == line>>1 {
-					f.storeThenAccessSameRegion = true
-				}
-				if a.store && a.line == line && in.Op.IsLoad() {
-					f.storeThenLoadSameLine = true
-				}
-				if a.store && a.line == line && in.Op.IsStore() {
-					f.storesSameLine = true
+					oConflict = append(oConflict, origin{pos: a.pos, line: line, hasLine: true})
+					if in.Op.IsLoad() {
+						oConflict = append(oConflict, origin{pos: i, reg: in.Rd, hasReg: true})
+					}
+					if !a.store {
+						// the older load may see the younger store
+						oConflict = append(oConflict, origin{pos: i, reg: a.rd, hasReg: true})
+					}
 				}
 			}
-			accs = append(accs, acc{i, line, in.Op.IsStore()})
-			if i-lastRedirect <= 24 {
-				f.memAfterRedirect = true
-			}
-			if i-lastMem <= 4 {
-				f.memClose = true
-			}
-			lastMem = i
-			if len(ref.Trace)-i <= 6 {
-				f.memNearEnd = true
-			}
+			accs = append(accs, acc{i, line, in.Op.IsStore(), in.Rd})
 		}
 		if isRedirect {
 			f.redirects++
-			lastRedirect = i
-			if i-lastMem <= 24 {
-				f.memBeforeRedirect = true
-			}
-			for _, pos := range lastLoadDest {
-				if i-pos <= 16 {
-					f.loadBeforeRedirect = true
-				}
-			}
-			// static shadow
 			for k := 1; k <= 8; k++ {
 				j := int(st.Idx) + k
 				if j >= len(p.Insts) {
 					break
 				}
 				sh := p.Insts[j]
-				if _, w := sh.Writes(); w || sh.Op.IsStore() {
+				if rd, w := sh.Writes(); w {
 					f.shadowHasWork = true
+					if in.Op.IsCondBranch() {
+						oShadow = append(oShadow, origin{pos: i, reg: rd, hasReg: true})
+					}
+				}
+				if sh.Op.IsStore() {
+					f.shadowHasWork = true
+					f.shadowHasStore = true
+					if in.Op.IsCondBranch() {
+						oShadow = append(oShadow, origin{pos: i, memAny: true})
+					}
 				}
 				if sh.Op.IsLoad() || sh.Op.IsStore() {
 					f.shadowHasMem = true
-				}
-				if sh.Op.IsStore() {
-					f.shadowHasStore = true
 				}
 				if sh.Op == isa.DIV || sh.Op == isa.REM || sh.Op.IsJump() || sh.Op.IsCondBranch() {
 					f.shadowHasTrap = true
@@ -193,76 +243,108 @@ func featuresOf(c *core.Case) *features {
 						f.shadowHasErrTrap = true
 					}
 				}
-				if sh.Op.IsJump() || sh.Op.IsCondBranch() || sh.Op == isa.RET {
-					f.shadowHasControl = true
-				}
 			}
-		}
-		if in.Op.IsCondBranch() {
-			writesSinceCommit = map[isa.Reg]int{}
-			b := br{pos: i, before: map[isa.Reg]bool{}}
-			for r, pos := range lastWrite {
-				if i-pos <= 10 {
-					b.before[r] = true
-				}
-			}
-			// static shadow of a taken branch
-			if st.Taken {
-				for k := 1; k <= 8; k++ {
-					j := int(st.Idx) + k
-					if j >= len(p.Insts) {
-						break
-					}
-					if rd, w := p.Insts[j].Writes(); w && b.before[rd] {
-						f.regRewrittenAroundBranch = true
-					}
-				}
-			}
-			recentBranches = append(recentBranches, b)
 		}
 		if rd, w := in.Writes(); w && rd != isa.Zero {
-			writesSinceCommit[rd]++
-			if writesSinceCommit[rd] > 10 {
-				f.ringOverflow = true
-			}
-			if pos, ok := lastLoadDest[rd]; ok && i-pos <= 16 && pos != i {
-				f.loadDestOverwritten = true
-			}
-			for _, b := range recentBranches {
-				if i > b.pos && i-b.pos <= 10 && b.before[rd] {
-					f.regRewrittenAroundBranch = true
-				}
-			}
 			lastWrite[rd] = i
-			// "slow" results: a load's, or one computed from a slow result produced
-			// within the last 6 executed instructions (it waits for the load)
-			slow := in.Op.IsLoad()
-			for _, rs := range in.Reads() {
-				if pos, ok := lastLoadDest[rs]; ok && i-pos <= 6 && rs != isa.Zero {
-					slow = true
-				}
+		}
+	}
+
+	// slow writers: a load's destination, or the destination of an instruction
+	// that reads a slow result produced within the last 6 executed instructions
+	slowAt := map[isa.Reg]int{}
+	writesSinceCommit := map[isa.Reg]int{}
+	for i := 0; i < n; i++ {
+		in := inst(i)
+		if in.Op.IsCondBranch() {
+			writesSinceCommit = map[isa.Reg]int{}
+		}
+		rd, w := in.Writes()
+		if !w || rd == isa.Zero {
+			continue
+		}
+		writesSinceCommit[rd]++
+		if writesSinceCommit[rd] > 10 {
+			f.ringOverflow = true
+			oRing = append(oRing, origin{pos: i, reg: rd, hasReg: true})
+		}
+		if pos, ok := slowAt[rd]; ok && i-pos <= 16 {
+			f.slowWaw = true
+			oSlow = append(oSlow, origin{pos: i, reg: rd, hasReg: true})
+		}
+		slow := in.Op.IsLoad()
+		for _, rs := range in.Reads() {
+			if pos, ok := slowAt[rs]; ok && i-pos <= 6 && rs != isa.Zero {
+				slow = true
 			}
-			if slow {
-				lastLoadDest[rd] = i
-			} else {
-				delete(lastLoadDest, rd)
+		}
+		if slow {
+			slowAt[rd] = i
+		} else {
+			delete(slowAt, rd)
+		}
+	}
+	// a register written twice within 6 instructions with a conditional branch
+	// within the next 8 (the older write can be held up by write-bus back-pressure)
+	for i := 0; i < n; i++ {
+		rd, w := inst(i).Writes()
+		if !w || rd == isa.Zero {
+			continue
+		}
+		for j := i + 1; j < n && j <= i+6; j++ {
+			rd2, w2 := inst(j).Writes()
+			if !w2 || rd2 != rd {
+				continue
+			}
+			for k := j + 1; k < n && k <= j+8; k++ {
+				if inst(k).Op.IsCondBranch() {
+					f.slowWaw = true
+					oSlow = append(oSlow, origin{pos: j, reg: rd, hasReg: true})
+				}
 			}
 		}
 	}
-	for i, st := range ref.Trace {
-		ld := p.Insts[st.Idx]
-		if !ld.Op.IsLoad() || ld.Rd == isa.Zero {
-			continue
+	// write-after-read seen by a waiting instruction: a load re-reads its base
+	// register while it waits for its line; a consumer of a load result reads
+	// its other sources when the load completes
+	rewritten := func(r isa.Reg, from, span int) bool {
+		if r == isa.Zero {
+			return false
 		}
-		if ld.Rs1 != isa.Zero {
-			for k := i + 1; k < len(ref.Trace) && k <= i+8; k++ {
-				if rd, w := p.Insts[ref.Trace[k].Idx].Writes(); w && rd == ld.Rs1 {
-					f.warAfterLoadUse = true // the load re-reads its base register while it waits for its line
-				}
+		for k := from + 1; k < n && k <= from+span; k++ {
+			if rd, w := inst(k).Writes(); w && rd == r {
+				return true
 			}
 		}
-		for j := i + 1; j < len(ref.Trace) && j <= i+6; j++ {
-			cons := p.Insts[ref.Trace[j].Idx]
+		return false
+	}
+	victim := func(j int) {
+		in := inst(j)
+		f.warLoad = true
+		switch {
+		case in.Op.IsStore():
+			oWar = append(oWar, origin{pos: j, memAny: true})
+		case in.Op.IsCondBranch() || in.Op == isa.JALR:
+			oWar = append(oWar, origin{pos: j, all: true})
+		default:
+			if rd, w := in.Writes(); w {
+				oWar = append(oWar, origin{pos: j, reg: rd, hasReg: true})
+			}
+		}
+	}
+	for i := 0; i < n; i++ {
+		ld := inst(i)
+		if !ld.Op.IsLoad() {
+			continue
+		}
+		if rewritten(ld.Rs1, i, 8) {
+			victim(i)
+		}
+		if ld.Rd == isa.Zero {
+			continue
+		}
+		for j := i + 1; j < n && j <= i+6; j++ {
+			cons := inst(j)
 			uses := false
 			for _, r := range cons.Reads() {
 				if r == ld.Rd {
@@ -273,34 +355,16 @@ func featuresOf(c *core.Case) *features {
 				continue
 			}
 			for _, r := range cons.Reads() {
-				if r == isa.Zero {
-					continue
-				}
-				for k := j + 1; k < len(ref.Trace) && k <= j+8; k++ {
-					if rd, w := p.Insts[ref.Trace[k].Idx].Writes(); w && rd == r {
-						f.warAfterLoadUse = true
-					}
+				if rewritten(r, j, 8) {
+					victim(j)
 				}
 			}
 		}
 	}
-	for i, st := range ref.Trace {
-		rd, w := p.Insts[st.Idx].Writes()
-		if !w || rd == isa.Zero {
-			continue
-		}
-		for j := i + 1; j < len(ref.Trace) && j <= i+6; j++ {
-			rd2, w2 := p.Insts[ref.Trace[j].Idx].Writes()
-			if !w2 || rd2 != rd {
-				continue
-			}
-			for k := j + 1; k < len(ref.Trace) && k <= j+8; k++ {
-				if p.Insts[ref.Trace[k].Idx].Op.IsCondBranch() {
-					f.wawBeforeBranch = true
-				}
-			}
-		}
-	}
-	f.distinctLines = len(lines)
+	f.tConflict = propagate(p, ref, oConflict)
+	f.tShadow = propagate(p, ref, oShadow)
+	f.tSlowWaw = propagate(p, ref, oSlow)
+	f.tWar = propagate(p, ref, oWar)
+	f.tRing = propagate(p, ref, oRing)
 	return f
 }
